@@ -18,6 +18,7 @@
 package pqmr
 
 import (
+	"encoding/binary"
 	"fmt"
 	"io"
 	"os"
@@ -289,6 +290,17 @@ func ReadPqmr(fname *string) (*SegmentPQMRResults, error) {
 			break
 		}
 		offset += int64(bsSize)
+
+		// the marshalled bitset starts with its length in bits; a damaged length makes
+		// UnmarshalBinary allocate that much memory before it notices the data is too short
+		if bsSize >= 8 {
+			numBits := binary.BigEndian.Uint64(bsBlk[:8])
+			if numBits > uint64(bsSize)*8 {
+				err = fmt.Errorf("ReadPqmr: corrupted bitset in %v: blkNum=%v claims %v bits in %v bytes", *fname, blkNum, numBits, bsSize)
+				log.Errorf(err.Error())
+				return nil, err
+			}
+		}
 
 		bs := bitset.New(0)
 		err = bs.UnmarshalBinary(bsBlk[:bsSize])
